@@ -1152,6 +1152,11 @@ func (vfs *MemFS) removeAll(path string) (retry bool, err error) {
 	defer child.Unlock()
 
 	if c, ok := child.(*dirNode); ok {
+		if len(c.children) != 0 && !parent.checkPermission(avfs.OpenRead, vfs.User()) {
+			// as os.RemoveAll, which opens the parent directory to remove a directory that is not empty.
+			return false, vfs.err.PermDenied
+		}
+
 		err = vfs.removeContent(c)
 		if err != nil {
 			return false, err
